@@ -282,9 +282,9 @@ def r105(prog, chk):
     ok = len(plain) == 1 and len(same) == 1
     if ok:
         g = [g for g in conds(prog, cv, plain[0]) if g.kind == "if"]
-        ok = len(g) == 1 and isinstance(g[0].test, ast.UnaryOp) and isinstance(g[0].test.operand, ast.Call) and A.callee_name(g[0].test.operand) == "any" and g[0].polarity is True
+        ok = len(g) == 1 and isinstance(g[0].test, ast.Call) and A.callee_name(g[0].test) == "any" and g[0].polarity is False
         if ok:
-            ge = g[0].test.operand.args[0]
+            ge = g[0].test.args[0]
             ok = isinstance(ge, ast.GeneratorExp) and isinstance(ge.elt, ast.Compare) and isinstance(ge.elt.ops[0], ast.Gt) and "abs(" in T(ge.elt.left) and T(ge.elt.comparators[0]) == cv.params()[1]
     thr = cv.node.args.defaults
     okd = len(thr) == 1 and A.is_const(thr[0], 0)
